@@ -463,7 +463,7 @@ def check_c13(rep):
         for bits in ([20], [20, 20, 20], [22, 21, 22, 21], [14, 15, 16], [18] * 6):
             if all(b > (2 * n).bit_length() + (3 if len(bits) > 3 else 0) for b in bits):
                 gens.append({"kind": "coeff", "n": n, "bits": bits})
-        for bits in ([20], [17, 18, 19], [22]):
+        for bits in ([20], [17, 18, 19], [22], [20, 20], [21, 19, 21]):      # (repeated sizes: the moduli must still be distinct)
             if all(b > (2 * n).bit_length() for b in bits):
                 gens.append({"kind": "batching", "n": n, "bits": bits})
     open(gfile, "w").write("\n".join(json.dumps(g) for g in gens) + "\n")
@@ -474,7 +474,7 @@ def check_c13(rep):
         for bits in ([60], [60, 60, 60], [50, 40, 30, 60], [36, 36, 37], [27, 45]) if quick else ([60], [60, 60, 60, 60, 60, 60], [50, 40, 30, 60], [36, 36, 37], [27, 45], [59, 58, 57, 56, 55], [33, 32, 31]):
             if all(b > (2 * n).bit_length() + 2 for b in bits):
                 bigreq.append({"kind": "coeff", "n": n, "bits": bits})
-        for bits in ([40], [60], [33, 34]) if quick else ([40], [60], [33, 34], [25, 50], [59]):
+        for bits in ([40], [60], [33, 34], [40, 40, 40]) if quick else ([40], [60], [33, 34], [25, 50], [59], [40, 40, 40], [30, 25, 30]):
             if all(b > (2 * n).bit_length() + 2 for b in bits):
                 bigreq.append({"kind": "batching", "n": n, "bits": bits})
     # ... and the moduli of every parameter set the other checks (C01-C12, C14-C20) name, so that the premise "the moduli
